@@ -179,6 +179,11 @@ def drvStep (db : DB) (args : List String) : DB × String :=
       doOp db (.stage { batchId := id, batchTx := tx, feeOk := fee, orders := os, orderMods := oms,
                         accounts := as, acctMods := ams, matched := mt })
     | _, _, _, _, _, _, _, _ => (db, "bad-op")
+  -- a caller reads an account and keeps the struct (DB.Account): no state change
+  | ["hold", k] =>
+    match k.toNat? with
+    | some k => (db, match lookup k db.accounts with | some _ => "ok" | none => "noAcct")
+    | none => (db, "bad-op")
   | ["delorder", n] =>
     match n.toNat? with
     | some n => doOp db (.deleteOrder n)
